@@ -139,8 +139,11 @@ pub fn run_savetrace(toks: &[&str]) -> String {
             if !okres { continue; }
             match call {
                 "open" | "openat" | "creat" => {
-                    if l.contains("O_CREAT") || l.contains("O_TRUNC") || call == "creat" {
+                    // C = created empty (O_TRUNC / creat); O = opened for writing WITHOUT truncation
+                    if l.contains("O_TRUNC") || call == "creat" {
                         if let Some(f) = name(l) { ops.push(format!("C:{}", f)); }
+                    } else if l.contains("O_WRONLY") || l.contains("O_RDWR") {
+                        if let Some(f) = name(l) { ops.push(format!("O:{}", f)); }
                     }
                 }
                 "write" | "pwrite64" | "writev" => {
@@ -191,9 +194,17 @@ pub fn run_savecrash(toks: &[&str]) -> String {
         let mut a = casbin::FileAdapter::new(path.clone());
         rt.block_on(a.save_policy(&mut m)).unwrap();
     }
+    // "stale<n>": a temporary file of n bytes left behind by an earlier, interrupted save; no write limit
+    let mut limit = toks[3].to_string();
+    if let Some(n) = toks[3].strip_prefix("stale") {
+        let n: usize = n.parse().unwrap();
+        let junk = "p, stale, left, over\n".repeat(n / 21 + 1);
+        std::fs::write(format!("{}.tmp", path), &junk.as_bytes()[..n]).unwrap();
+        limit = "unlimited".to_string();
+    }
     let exe = std::env::current_exe().unwrap();
     let st = std::process::Command::new(exe)
-        .args(["savechild", &path, toks[2], toks[3]])
+        .args(["savechild", &path, toks[2], &limit])
         .status();
     let res = match st {
         Ok(s) => match s.code() {
